@@ -83,7 +83,7 @@ def _explore_case(args):
                    violations=[v.to_json() for v in env.violations] if env else [],
                    inconclusive=list(env.inconclusive) if env else [], reach=env.reach if env else 0,
                    vacuous=list(env.vacuous) if env else [], funcs=sorted(prof.funcs),
-                   nontrivial=bool(env and eng.stats['assert_queries'] > holder.get('q0', 0)),
+                   nontrivial=bool(env and (env.claims > 0 or eng.stats['assert_queries'] > holder.get('q0', 0))),
                    sample=dict(case=case.get('id'), decisions=[[d[0], str(d[1])[:100], str(d[2])] for d in dec[:10]],
                                result=str(r)[:300] if r is not None else None),
                    sample_queries=list(eng.sample_queries))
@@ -285,7 +285,8 @@ def run_property(pid, tier, modname, cases, opts=None, level="model_checking", a
         distinct_nontrivial=int(distinct_nontrivial),
         rule=rule or ("one evaluation = one symbolic path of one case (a path stands for all real values of the "
                       "symbolic inputs satisfying its path condition); distinct = distinct (case, decision trace); "
-                      "non-trivial = at least one z3 assertion query was discharged on it"),
+                      "non-trivial = at least one obligation was decided on it (by a z3 query, or - structural claims - by "
+                      "term identity after z3 simplification)"),
         samples=samples[:6] or [dict(note="no path")],
         cases=len(results),
         obligations=int(sum(r['claims'] for r in results)),
